@@ -231,6 +231,8 @@ type ParamWrites struct {
 	c    *Ctx
 	memo map[*ssa.Function]map[int]ssa.Instruction
 	busy map[*ssa.Function]bool
+	// SkipCall: calls whose effects are another rule's subject and are not followed here
+	SkipCall func(ssa.CallInstruction) bool
 }
 
 func NewParamWrites(c *Ctx) *ParamWrites {
@@ -272,6 +274,9 @@ func (pw *ParamWrites) Of(fn *ssa.Function, depth int) map[int]ssa.Instruction {
 		allInstrs(fn, func(in ssa.Instruction) {
 			ci, ok := in.(ssa.CallInstruction)
 			if !ok {
+				return
+			}
+			if pw.SkipCall != nil && pw.SkipCall(ci) {
 				return
 			}
 			args := callArgs(ci.Common())
